@@ -203,7 +203,11 @@ pub fn run_job<R: Send + 'static>(
                     let not_started = w.started.is_empty();
                     let all_parked = w.live.iter().all(|l| w.parked.contains_key(l));
                     let cpu_flat = cpu_at_change.elapsed() >= wd.quiescence;
-                    if !not_started && (all_parked || cpu_flat) {
+                    // all workers ended but a host has not returned: no hook fires during the teardown
+                    // (joins of the network threads), so silence alone is weak evidence - wait longer
+                    let teardown = live == 0 && !not_started;
+                    let teardown_ok = !teardown || last_change.elapsed() >= Duration::from_secs(40);
+                    if !not_started && teardown_ok && (all_parked || cpu_flat) {
                         let mut parked: Vec<_> =
                             w.parked.iter().map(|(l, (op, ep))| (*l, *op, *ep)).collect();
                         parked.sort();
